@@ -6,6 +6,7 @@
 //!   replay search --prop Cxx [--depth d] [--seed s] [--random n] [--len l] [--ties] [--out file]
 //!                                                       exit 0 = nothing found, 1 = failing history written to --out
 //!   replay truncate [--seed s]                          bounded stand-in of C07: every byte prefix of written snapshots is rejected
+mod envrun;
 mod model;
 use bourse_book::types::{Event, Order, Side, Status, Trade};
 use bourse_book::OrderBook;
@@ -442,7 +443,7 @@ impl<const N: usize> Runner<N> {
             Op::ReloadFile { pretty } => {
                 let p = std::env::temp_dir().join(format!("bourse_replay_{}_{}.json", std::process::id(), step));
                 // a longer file already at the path must not matter
-                std::fs::write(&p, vec![b' '; 1 << 16]).unwrap();
+                std::fs::write(&p, vec![b'#'; 1 << 16]).unwrap();
                 match self.book.save_json(&p, *pretty) {
                     Ok(()) => match OrderBook::<N>::load_json(&p) {
                         Ok(b) => self.book = b,
@@ -793,6 +794,13 @@ fn main() {
         "run" => {
             let text = std::fs::read_to_string(&args[2]).expect("history file");
             let v: serde_json::Value = serde_json::from_str(&text).unwrap();
+            let hv0 = if v.get("witness").map_or(false, |w| !w.is_null()) { v["witness"]["history"].clone() } else if v.get("history").is_some() { v["history"].clone() } else { v.clone() };
+            if hv0.get("env").is_some() {
+                let h: envrun::EnvHistory = serde_json::from_value(hv0).expect("env history format");
+                let fails = envrun::run_env_history(&h);
+                println!("{}", serde_json::to_string_pretty(&serde_json::json!({"ops": h.ops.len(), "failures": fails})).unwrap());
+                std::process::exit(if fails.is_empty() { 0 } else { 1 });
+            }
             let hv = if v.get("witness").map_or(false, |w| !w.is_null()) { v["witness"]["history"].clone() } else if v.get("history").is_some() { v["history"].clone() } else { v.clone() };
             let h: History = serde_json::from_value(hv).expect("history format");
             let fails = run_history(&h);
@@ -808,6 +816,22 @@ fn main() {
             let budget: u64 = arg(&args, "--budget").map_or(60, |s| s.parse().unwrap());
             let ties = args.iter().any(|a| a == "--ties");
             let offgrid = args.iter().any(|a| a == "--offgrid");
+            if args.iter().any(|a| a == "--env") {
+                match envrun::search_env(&prop, seed, nrandom, budget) {
+                    Some((h, fails)) => {
+                        let doc = serde_json::json!({"history": h, "failures": fails});
+                        if let Some(out) = arg(&args, "--out") {
+                            std::fs::write(out, serde_json::to_string_pretty(&doc).unwrap()).unwrap();
+                        }
+                        println!("{}", serde_json::to_string_pretty(&doc).unwrap());
+                        std::process::exit(1);
+                    }
+                    None => {
+                        println!("{{\"found\": false}}");
+                        return;
+                    }
+                }
+            }
             match search(&prop, depth, seed, nrandom, len, ties, offgrid, budget) {
                 Some((h, fails)) => {
                     let doc = serde_json::json!({"history": h, "failures": fails});
